@@ -17,7 +17,7 @@ func verifShort(label string, lo, hi int) string {
 // HTTPBasicAuth lets the rest of the chain run iff the request carries
 // well-formed credentials and (no account list or the password matches).
 func verifHarness_C20_basicAuth() {
-	nacc := verifChoice("accounts", 3)
+	nacc := verifChoice("accounts", verifParam("A")+1)
 	accounts := map[string]string{}
 	var users, pwds []string
 	for i := 0; i < nacc; i++ {
@@ -153,7 +153,7 @@ func verifHarness_C20_methodOverride() {
 // WrapHTTPHandlers / WrapHTTPHandler compose generic http.Handlers: first
 // listed is outermost; wrapped handlers take part in the chain.
 func verifHarness_C20_wrappers() {
-	n := 1 + verifChoice("n", 5)
+	n := 1 + verifChoice("n", verifParam("W"))
 	var trace []int
 	mk := func(id int) func(http.Handler) http.Handler {
 		return func(h http.Handler) http.Handler {
@@ -181,9 +181,20 @@ func verifHarness_C20_wrappers() {
 		c.Next()
 		trace = append(trace, -100)
 	})
+	// the wrapped handler may answer with any status (also an error status): like a native
+	// handler that sets a status, it does not end the chain by doing so
+	setsStatus := verifChoice("wrappedSetsStatus", 2) == 1
+	wcode := 200
+	if setsStatus {
+		wcode = verifInt("wrappedStatus")
+		verifAssume(verifAnd(wcode >= 100, wcode <= 599))
+	}
 	wrapped := rux.WrapHTTPHandler(http.HandlerFunc(func(w http.ResponseWriter, rq *http.Request) {
 		gotW, gotR = w, rq
 		trace = append(trace, 101)
+		if setsStatus {
+			w.WriteHeader(wcode)
+		}
 	}))
 	gate := func(c *rux.Context) {
 		if abort {
